@@ -190,9 +190,9 @@ static std::string num(double x) { char b[40]; std::snprintf(b, sizeof b, "%.17g
 static void rawsc(const Cfg& c, double& s1, double& c1, double& s2, double& c2);
 static std::string finding_class(const Cfg& c) {
   std::string t;
-  // every class, f >= 0.95 or (the classes that invert the conformal latitude: polar stereographic, Lambert) f <= -3: the Newton
-  // inversions Math::tauf and AlbersEqualArea::tphif stop after 5 iterations whether converged or not
-  if (c.f >= 0.95 || (c.cls != 2 && c.f <= -3)) t += " [class:newton-5-iterations]";
+  // (the classes of the repaired findings F84 Deatanhe guard, F85 DDatanhee2 selection for prolate ellipsoids, F86 Newton cycle in
+  // Albers Init, F88 five Newton iterations in tauf/tphif are gone: a regression alarms)
+  // F89 (open):
   // LCC: Snyder's t0^n is kept as _t0nm1 = t0^n - 1 and recovered as _t0nm1 + 1 with an absolute error of one ulp of 1, i.e. the
   // radius rho0 = (scale/n) t0^n with an absolute error eps * scale/n, scale = a k1 n F.  The class: that error alone exceeds the
   // documented budget, n F eps a >= 4 kappa 10 nm (a/a_WGS84), i.e. n F >= 28 kappa (only strongly prolate ellipsoids, where the
@@ -205,25 +205,14 @@ static std::string finding_class(const Cfg& c) {
   // parallel and the pole (radius a difference of nearly equal numbers) is off by far more than the condition number allows, also for one parallel
   if (c.f >= 0.9 && std::fmin(c1, c2) < 2e-4 && std::fmin(c1, c2) > 0 && (!distinct_parallels(c) || (s1 == s2 && c1 == c2))) t += " [class:oblate-init-accuracy]";
   if (!distinct_parallels(c) || (s1 == s2 && c1 == c2)) return t;
-  double sg = s1 + s2 >= 0 ? 1 : -1; s1 *= sg; s2 *= sg; if (s1 > s2) { std::swap(s1, s2); std::swap(c1, c2); }   // as Init: x = s1 <= y = s2, y >= |x|
-  double e2 = e2of(c.f), e = std::sqrt(std::fabs(e2)), e2m = 1 - e2;
-  // LCC, e^2 < -1, parallels in opposite hemispheres with |e^2| |sin| >= 1: Deatanhe forms atan of (x - y)/(1 - e^2 x y) with a
-  // non-positive denominator (the arctangent addition formula is then off by pi)
-  if (c.cls == 1 && e2 < -1 && s1 < 0 && -e2 * -s1 >= 1) t += " [class:lcc-prolate-mixed-hemispheres]";
-  // Albers, e^2 < -3, both parallels in one hemisphere and DDatanhee2 selected (q2 < 3/4 <= q1): the series in 1 - x loses
-  // ((1 + e)/sqrt(1 + e^2))^m to cancellation and overflows
-  if (c.cls == 2 && e2 < -3 && s1 > 0 && std::fabs(2 * e / e2m * (1 - s1)) < 0.75) t += " [class:albers-prolate-ddatanhee2]";
-  // Albers, f >= 0.8, parallels in opposite hemispheres: the unsafeguarded Newton iteration for the origin can leave the
-  // interval between the parallels and converge to another root
-  if (c.cls == 2 && c.f >= 0.8 && s1 < 0) t += " [class:albers-oblate-newton-origin]";
-  // f >= 0.5 (1/(1 - e^2) >= 4), two distinct parallels: the divided-difference evaluation of the cone constant and of the origin in
+  // F87 (open): f >= 0.5 (1/(1 - e^2) >= 4), two distinct parallels: the divided-difference evaluation of the cone constant and of the origin in
   // Init loses accuracy much faster than the problem's condition number (any pair: about 1/(1 - e^2)^2 ulp from f = 0.75 on); with a
   // parallel within 0.01 degrees of a pole (cosine < 2e-4) already from f > 0.1 on (1e6 ulp at f = 0.5)
   if (c.f >= 0.5 || (c.f > 0.1 && std::fmin(c1, c2) < 2e-4)) t += " [class:oblate-init-accuracy]";
   return t;
 }
-// classes that make the kernel models pointless to run (Init itself is wrong): everything but the Newton-count class
-static bool init_class(const Cfg& c) { std::string t = finding_class(c); size_t i = t.find("[class:"); while (i != std::string::npos) { if (t.compare(i, 26, "[class:newton-5-iterations") != 0) return true; i = t.find("[class:", i + 1); } return false; }
+// classes that make the kernel models pointless to run (Init itself is inaccurate)
+static bool init_class(const Cfg& c) { return finding_class(c).find("[class:") != std::string::npos; }
 static std::string& cur_tag() { static std::string t; return t; }
 static void badt(const std::string& rel, const std::string& details) { gv::bad(rel, details + cur_tag()); }
 
@@ -736,7 +725,7 @@ static Reg r_css("csetscale", [](const Args& a) {
 static const double EPS = std::numeric_limits<double>::epsilon();
 static Reg r_ctxif("ctxif", [](const Args& a) {
   double f = unhx(a[0]), tphi = unhx(a[1]); AlbersEqualArea q(1, f, 0, 1); double txi = q.txif(tphi), back = q.tphif(txi); emit(hx(txi) + " " + hx(back));
-  cur_tag() = f >= 0.95 ? " [class:newton-5-iterations]" : ""; const double kp = kappa(f);
+  cur_tag() = ""; const double kp = kappa(f);
   if (!(std::isfinite(tphi) && std::fabs(tphi) < 1e6 && std::fabs(tphi) > 1e-300)) return;
   c11::Ell E(1, f); Q t = tphi, s = t / sqrtq(1 + t * t), Qs = s / (1 - E.e2 * s * s) + E.atanhee(s), QZ = 1 / (1 - E.e2) + E.atanhee(1), w = Qs / sqrtq((QZ - Qs) * (QZ + Qs));
   if (!(std::fabs(c11::dbl((Q(txi) - w) / w)) <= 64 * EPS * kp)) badt("txif-vs-definition", "txif(" + num(tphi) + ") = " + num(txi) + " on f = " + num(f) + "; authalic tangent " + c11::qstr(w));
@@ -748,12 +737,13 @@ static Reg r_cddat("cddat", [](const Args& a) {
   double dd = q.DDatanhee(x, y), am = AlbersEqualArea::atanhxm1(xm);
   emit(hx(dd) + " " + hx(am));
   c11::Ell E(1, f); const double kp = kappa(f);
-  // (the two numerical-range defects of DDatanhee2: cancellation for e^2 < -3, overflow of 1/(1 - e^2)^m against underflow of (1 - x)^m for 1 - e^2 < 1e-3)
+  // (the open numerical-range defect of DDatanhee2, F93: overflow of 1/(1 - e^2)^m against underflow of (1 - x)^m for 1 - e^2 < 1e-3; the
+  // cancellation for e^2 < -3, F85, is repaired by the selection rule q2 = (1 + e) e/(1 - e^2) (1 - x) for f < 0)
   // overflow: DDatanhee2 selected (q2 < 3/4 <= q1) and the M = 16/log10(1/q2) terms it needs drive 1/(1 - e^2)^(M+2) or (1 - x)^M out of range
-  { double lo = std::fmin(x, y), e2 = e2of(f), q2 = std::fabs(2 * std::sqrt(std::fabs(e2)) / (1 - e2) * (1 - lo));
+  { double lo = std::fmin(x, y), e2 = e2of(f), q2 = std::fabs((f < 0 ? 1 + std::sqrt(std::fabs(e2)) : 2) * std::sqrt(std::fabs(e2)) / (1 - e2) * (1 - lo));
     bool sel2 = lo > 0 && q2 < 0.75 && !(std::fabs(e2) < q2);
     bool over = sel2 && e2 > 0 && (16 / -std::log10(q2) + 2) * std::fmax(-std::log10(1 - e2), -std::log10(1 - lo)) > 250;
-    cur_tag() = (e2 < -3 && sel2) ? " [class:albers-prolate-ddatanhee2]" : over ? " [class:albers-oblate-ddatanhee2-overflow]" : ""; }
+    cur_tag() = over ? " [class:albers-oblate-ddatanhee2-overflow]" : ""; }
   // atanhxm1 (x < 1)
   if (std::isfinite(xm) && xm < 1 && std::fabs(xm) > 1e-300) {
     Q X = xm, r = sqrtq(fabsq(X)), w = fabsq(X) < Q(1e-9) ? X / 3 + X * X / 5 + X * X * X / 7 : (X > 0 ? atanhq(r) : atanq(r)) / r - 1;
